@@ -130,7 +130,7 @@ std::string handle(const std::string& op, Args& a)
 	{
 		double p = a.dbl(), s = a.dbl();
 		a.end();
-		bool bad  = !(s > 0);
+		bool bad  = !(s > 0) || !(p >= 0.0 && p <= 1.0);
 		auto body = [&](Out& o) {
 			double x = (op == "c06.invp") ? Inv_GammaP(p, s) : Inv_GammaQ(p, s);
 			o << x;
